@@ -18,6 +18,30 @@ def orNumErr {α : Type} : Option α → RM σ α
 /-- `state_error(..)?` -/
 def stateError {α : Type} : RM σ α := RM.fail .state
 
+/-- `a < b` on `Data::Number` (`PartialOrd::lt`: `partial_cmp == Some(Less)`) -/
+def numLt (a b : Number F) : Bool :=
+  match Number.partialCmp fo a b with
+  | some .lt => true
+  | _ => false
+
+/-- `a >= b` on `Data::Number` (`Some(Greater | Equal)`) -/
+def numGe (a b : Number F) : Bool :=
+  match Number.partialCmp fo a b with
+  | some .gt | some .eq => true
+  | _ => false
+
+/-- `a > b` -/
+def numGt (a b : Number F) : Bool :=
+  match Number.partialCmp fo a b with
+  | some .gt => true
+  | _ => false
+
+/-- `a <= b` (`Some(Less | Equal)`) -/
+def numLe (a b : Number F) : Bool :=
+  match Number.partialCmp fo a b with
+  | some .lt | some .eq => true
+  | _ => false
+
 /-- `next_ref` -/
 def nextRef : RM σ Nat := do
   match ← S.popRegister with
@@ -69,5 +93,10 @@ def pushBoolean (value : Bool) : RM σ Unit := do
 def pushPair (left right : Nat) : RM σ Unit := do
   let v ← S.addPair (left, right)
   S.pushRegister v
+
+/-- the recurring statement `if !this.defer_op(op, left, right)? { push_unit(this)? }` -/
+def deferOrUnit (op : Instruction) (left right : Ty × Nat) : RM σ Unit := do
+  if !(← S.deferOp op left right) then
+    pushUnit S
 
 end Garnish.Model.Runtime
